@@ -111,8 +111,8 @@ MANIFEST_TEXT = {
     "C20": {
         "level": "Seeded exploration of protocol interactions under a discrete-event simulator: arrival time, fragmentation, cross-party interleaving and peer misbehaviour (constraint-violating, wrong type, garbage, truncated, silent, stalled, unsolicited) are drawn from one seed; invariants (valid prefix, exactly-once in-order send log, receive conservation and attribution, never accept a bad message, valid remote data is never rejected in fault-free sessions) are checked at every step and at the end of every interaction.",
         "design_ref": "DESIGN.md §6.7",
-        "note": _NOTE + " The wire is a reliable ordered stream per sender; listener threads are reduced to pre-emption points at the lock-protected buffer accessors (tier A); the real socket transport (tier B) is not part of this check.",
-        "technique": "deterministic simulation with fault injection: discrete-event virtual time, seeded scheduler at buffer-accessor pre-emption points, scripted faulty peers, history checks against a reference automaton and the peers' own send logs",
+        "note": _NOTE + " The wire is a reliable ordered stream per sender. Tier A (ProtoSim) reduces listener threads to pre-emption points at the lock-protected buffer accessors; tier B (SockSim, run by the same command) runs the real NetworkParty/UdpTcpProtocolImplementation code and real baton-scheduled threads on fake socket/select/threading modules (one fuzzer + one external party, TCP).",
+        "technique": "deterministic simulation with fault injection: discrete-event virtual time, seeded scheduler at buffer-accessor pre-emption points (tier A) and baton-scheduled real threads over fake sockets (tier B), scripted faulty peers, history checks against a reference automaton and the peers' own send logs",
     },
     "C13": {
         "level": "Seeded exploration of (grammar, input, cut set, consumption style, can_continue interrogation) tuples against a fresh whole-input parse; every failure is a minimised replayable decision trace. Exploration is the right level because the quantifier ranges over all compositions of all inputs of all grammars; cut sets are sampled (for short inputs most of the 2^(n-1) compositions are hit over a run, never claimed exhaustive).",
